@@ -463,6 +463,10 @@ func (c *Client) validSubChannelProposal(proposal *SubChannelProposalMsg) error 
 }
 
 func (c *Client) validVirtualChannelProposal(prop *VirtualChannelProposalMsg, ourIdx channel.Index) error {
+	if len(prop.Proposer) == 0 {
+		return errors.New("proposal without proposer address")
+	}
+
 	numParents := len(prop.Parents)
 	numPeers := prop.NumPeers()
 	if numParents != numPeers {
@@ -517,6 +521,18 @@ func (c *Client) validChannelProposalAcc(
 ) error {
 	if !proposal.Matches(response) {
 		return errors.Errorf("Received invalid accept message %T to proposal %T", response, proposal)
+	}
+
+	// The responder's participant address becomes part of the channel parameters.
+	switch acc := response.(type) {
+	case *LedgerChannelProposalAccMsg:
+		if len(acc.Participant) == 0 {
+			return errors.New("accept message without participant address")
+		}
+	case *VirtualChannelProposalAccMsg:
+		if len(acc.Responder) == 0 {
+			return errors.New("accept message without participant address")
+		}
 	}
 
 	propID := proposal.Base().ProposalID
